@@ -18,5 +18,12 @@ constexpr bool vf_valid(fixed_t x)  { return x.v >= -NANV; }  // finite or +-NaN
 constexpr bool post_any1(fixed_t, fixed_t) { return true; }
 void vf_require(bool);
 void vf_ensure(bool);
+// self-check of the INT back end (unit c02.int_selfcheck.outparam): a reference out-parameter written before an early return must stay
+// visible to the caller -- the shape of the portable checked_multiply
+constexpr bool pre_anyl(long) { return true; }
+}
+constexpr bool vf_out_early(long a, long& out) { if( a == 0 ) { out = 7; return true; } out = a; return false; }
+extern "C" {
+constexpr bool lem_int_outparam(long a) { long r = 1; bool const b = vf_out_early(a, r); return a == 0 ? (b && r == 7) : (!b && r == a); }
 }
 }
